@@ -68,6 +68,44 @@ func (s *MSScript) oversize() bool {
 	return false
 }
 
+// addBarePoints appends, to some metrics of a generated payload, data points on which nothing at all is set —
+// legal, and their encoding has length zero (they carry no id: items without an id are compared by content).
+func addBarePoints(t *rapid.T, signal string, b []byte) []byte {
+	if signal != sig.Metrics || rapid.IntRange(0, 3).Draw(t, "bare_points") != 0 {
+		return b
+	}
+	v, err := sig.Decode(signal, b)
+	if err != nil {
+		return b
+	}
+	md := v.(pmetric.Metrics)
+	for i := 0; i < md.ResourceMetrics().Len(); i++ {
+		sms := md.ResourceMetrics().At(i).ScopeMetrics()
+		for j := 0; j < sms.Len(); j++ {
+			ms := sms.At(j).Metrics()
+			for k := 0; k < ms.Len(); k++ {
+				n := rapid.SampledFrom([]int{0, 0, 1, 3, 12, 60}).Draw(t, "nbare")
+				m := ms.At(k)
+				for x := 0; x < n; x++ {
+					switch m.Type() {
+					case pmetric.MetricTypeGauge:
+						m.Gauge().DataPoints().AppendEmpty()
+					case pmetric.MetricTypeSum:
+						m.Sum().DataPoints().AppendEmpty()
+					case pmetric.MetricTypeHistogram:
+						m.Histogram().DataPoints().AppendEmpty()
+					case pmetric.MetricTypeSummary:
+						m.Summary().DataPoints().AppendEmpty()
+					case pmetric.MetricTypeExponentialHistogram:
+						m.ExponentialHistogram().DataPoints().AppendEmpty()
+					}
+				}
+			}
+		}
+	}
+	return sig.Encode(md)
+}
+
 func genMS(t *rapid.T) MSScript {
 	s := MSScript{
 		Signal: rapid.SampledFrom(sig.All).Draw(t, "signal"),
@@ -78,7 +116,7 @@ func genMS(t *rapid.T) MSScript {
 	var next int64 = 1
 	total, totalBytes, maxAlone := 0, 0, 0
 	for i := 0; i < n; i++ {
-		b := sig.Gen(t, s.Signal, o, &next)
+		b := addBarePoints(t, s.Signal, sig.Gen(t, s.Signal, o, &next))
 		s.Payloads = append(s.Payloads, b)
 		s.Flush = append(s.Flush, rapid.IntRange(0, 3).Draw(t, "flush") == 0)
 		v, _ := sig.Decode(s.Signal, b)
@@ -272,7 +310,12 @@ func runMSInner(cMS *vt.C, s *MSScript) (nontrivial bool, f *vt.Finding) {
 	}
 	nontrivial = splits > 0 || merges > 0
 	if d := pitems.Multiset(in, out); d != "" {
-		f := vt.Failf(pitems.DiffKind(d)+"/"+s.Signal, "%s sizer=%s max=%d: %s", s.Signal, s.Sizer, s.Max, d)
+		kind := pitems.DiffKind(d)
+		if pitems.Multiset(pitems.StripMetricHeader(in), pitems.StripMetricHeader(out)) == "" {
+			// items without an id cannot be paired one to one, but apart from the metric header nothing differs
+			kind = "context[metric-header]"
+		}
+		f := vt.Failf(kind+"/"+s.Signal, "%s sizer=%s max=%d: %s", s.Signal, s.Sizer, s.Max, d)
 		if !cMS.Soft(f, s) {
 			return nontrivial, f
 		}
